@@ -8,7 +8,7 @@ import json, multiprocessing as mp, os, time
 from .. import core, tlc, registry, interp
 from .common import generic_replay
 
-SLOW = {"riemann.ep_riemann.GenEOS_Solver", "radshocks.nED_radshocks.ED_Solver", "guderley.guderley.Guderley"}
+SLOW = set()      # (GenEOS with 1001-point tables, ED_Solver and Guderley with gamma = 3 all take less than a second per operation)
 TEMPLATE_ONLY = {"riemann.ep_riemann.GenEOS_Solver@JWL", "sedov.sedov.Sedov@vacuum"}      # slow: systematic templates only, not in the random behaviours
 
 
@@ -55,7 +55,7 @@ def run(tier):
         else:
             raise tlc.TLCError("InterpMC failed: %s" % mres["error"])
     # 2. behaviours over the concrete classes (seeded simulation)
-    classes = [c for c in registry.STATEFUL if (tier == "thorough" and c != "guderley.guderley.Guderley" or c not in SLOW) and c not in TEMPLATE_ONLY]
+    classes = [c for c in registry.STATEFUL if (c not in SLOW) and c not in TEMPLATE_ONLY]
     tclasses = classes + sorted(TEMPLATE_ONLY)
     wd = tlc.workdir("C06gen")
     maxops = 6 if tier == "quick" else 7
